@@ -362,7 +362,7 @@ var refClassSample = map[int]string{rcOther: "a", rcBlank: " ", rcNewline: "\\n"
 func runC16(c *Ctx) {
 	P := c.P
 	c.Level = "model_checking"
-	c.Explanation = "The tokenizer is a table-driven transducer whose table is data in the source. The table (update), the byte classification (classOf), the initial state, the per-action effects of the interpreter loop in Scanner.Next, the end-of-input verdict and the Complete predicate are extracted from the typed AST / go/ssa form of /repo on every run (nothing is executed). R-FST-TOTAL: the table is total over reachable states. R-FST-INTERP: the interpreter reads one byte per step through ReadByte, indexes update[st][classOf[c]], assigns the entry's state and performs exactly the effect each action name promises. R-FST-EQUIV: the extracted transducer is compared with an independently written POSIX reference transducer by exhaustive product construction: on every reachable (impl state, ref state, class) the output symbols agree, and at every reachable pair the end-of-input verdicts (token pending, complete) agree — this covers every input string. R-CLASSOF: all 256 bytes classify as in the reference. R-READBYTE-ONLY, R-ERR-STICKY, R-REST: chunking independence, permanent stop after end of input, Rest hands back the same buffered reader. Does NOT decide agreement with a real /bin/sh (nothing is executed); the reference transducer is trusted."
+	c.Explanation = "The tokenizer is a table-driven transducer whose table is data in the source. The table (update), the byte classification (classOf), the initial state, the per-action effects of the interpreter loop in Scanner.Next, the end-of-input verdict and the Complete predicate are extracted from the typed AST / go/ssa form of /repo on every run (nothing is executed). R-FST-TOTAL: the table is total over reachable states. R-FST-INTERP: the interpreter reads one byte per step through ReadByte, indexes update[st][classOf[c]], assigns the entry's state and performs exactly the effect each action name promises. R-FST-EQUIV: the extracted transducer is compared with an independently written POSIX reference transducer by exhaustive product construction: on every reachable (impl state, ref state, class) the output symbols agree, and at every reachable pair the end-of-input verdicts (token pending, complete) agree — this covers every input string. R-CLASSOF: all 256 bytes classify as in the reference. R-READBYTE-ONLY, R-ERR-STICKY, R-REST: chunking independence, permanent stop after end of input, Rest hands back the same buffered reader. (R-RESULT-FRESH) the token slice Scanner.Split returns is allocated by that call and not kept in the pooled scanner. Does NOT decide agreement with a real /bin/sh (nothing is executed); the reference transducer is trusted."
 	c.rule("R-FST-TOTAL", 6, "every reachable state has a row of exactly |class| entries whose states/actions are declared constants; stNone is unreachable through the table and only stored together with a non-nil error")
 	c.rule("R-FST-INTERP", 6, "Scanner.Next: one ReadByte per step; entry = update[s.st][classOf[c]]; s.st := entry.state; per action constant the promised effect (push: write c; xpush: write '\\\\' then c; emit: return true; drop: nothing); otherwise panic; cur reset on entry")
 	c.rule("R-FST-EQUIV", 20, "product of extracted transducer and POSIX reference: equal output symbols on every reachable (pair, class), equal end-of-input verdicts at every reachable pair")
